@@ -29,55 +29,29 @@ def run(ctx):
     sims = ctx.tlc_gen("Blockstore", "GenBlockstore.tla", "GenBlockstoreSim.cfg",
                        simulate=10 if ctx.quick else 100, depth=31 * 30 + 1, timeout=900)
     binp = ctx.go_build("blockstore", ["blockstore/zz_verif_C01_test.go"])
+    def changed_twice(b):
+        n, prev = 0, []
+        for st in b["steps"]:
+            n += st["store"] != prev
+            prev = st["store"]
+        return n >= 2
     for name, bl, env in (("bfs", behs, {"C01_NB": 2, "C01_NID": 1}), ("sim", sims, {"C01_NB": 3, "C01_NID": 2})):
-        inp = ctx.write_ndjson("beh_%s.ndjson" % name, bl)
-        recs, out, rc = ctx.go_run(binp, "TestVerifC01", pkg="blockstore", infile=inp, env=env, mode="replay")
-        summ = [r for r in recs if r.get("summary")]
-        if rc != 0 or not summ or summ[0]["n"] != len(bl):
-            ctx.broken("replay driver died (rc=%s): %s" % (rc, out[-1500:]))
+        if ctx.replay_behaviours(binp, "TestVerifC01", "blockstore", bl, env=env, name=name,
+                                 nontrivial=changed_twice) is None:
             return
-        for r in recs:
-            if r.get("ok") is False:
-                ctx.violation("behaviour %s#%d step %d: %s" % (name, r["i"], r["step"], r["what"]),
-                              dict(behaviour=bl[r["i"]], disagreement=r))
-        ctx.cov["traces_validated_against_impl"] += len(bl)
-        ctx.cov["evaluations"] += sum(len(b["steps"]) for b in bl)
-        for b in bl:
-            changes = 0
-            prev = []
-            for s in b["steps"]:
-                if s["store"] != prev:
-                    changes += 1
-                prev = s["store"]
-            if changes >= 2:
-                ctx.nontrivial(b)
-        ctx.sample(bl[len(bl) // 2])
     ctx.cov["exhaustive"] = True
     # T
     recs, out, rc = ctx.go_run(binp, "TestVerifC01", pkg="blockstore", mode="record")
     if rc != 0 or not recs:
         ctx.broken("record driver died: " + out[-1500:])
         return
-    tr = ctx.write_ndjson("trace.ndjson", recs)
-    res = ctx.tlc_trace("Blockstore", "TraceBlockstore.tla", "TraceBlockstore.cfg", tr)
-    if res["timeout"]:
-        ctx.broken("trace validation timed out")
-    elif not res["accepted"]:
-        bad = recs[res["hwm"]] if res["hwm"] < len(recs) else None
-        ctx.violation("recorded history rejected by TraceBlockstore at event %d: %s (invariant %s)" %
-                      (res["hwm"] + 1, json.dumps(bad), res["violated"]),
-                      dict(prefix=recs[max(0, res["hwm"] - 10):res["hwm"] + 1]))
-    else:
-        ctx.cov["traces_validated_against_impl"] += sum(1 for r in recs if r["ev"] == "Reset")
-        ctx.cov["evaluations"] += len(recs)
-    # negative control: corrupt one Read result -> must be rejected
-    idx = [i for i, r in enumerate(recs) if r["ev"] == "Read" and r["found"]]
-    if idx:
-        bad = [dict(r) for r in recs]
+    def corrupt(rs):
+        idx = [i for i, r in enumerate(rs) if r["ev"] == "Read" and r["found"]]
+        if not idx:
+            return None, None
         i = idx[len(idx) // 2]
-        bad[i]["found"] = False
-        bad[i]["mh"] = ["none", 0]
-        res2 = ctx.tlc_trace("Blockstore", "TraceBlockstore.tla", "TraceBlockstore.cfg",
-                             ctx.write_ndjson("trace_neg.ndjson", bad))
-        if res2["accepted"] or res2["hwm"] != i:
-            ctx.broken("negative control: corrupted trace not rejected at the corrupted event (hwm=%d, want %d)" % (res2["hwm"], i))
+        bad = [dict(r) for r in rs]
+        bad[i]["found"], bad[i]["mh"] = False, ["none", 0]
+        return bad, i
+    ctx.validate_trace("Blockstore", "TraceBlockstore.tla", "TraceBlockstore.cfg", recs,
+                       count_runs=lambda rs: sum(1 for r in rs if r["ev"] == "Reset"), negative=corrupt)
